@@ -30,6 +30,7 @@ to reorder source code characters in a way that changes its logic.
 .. versionadded:: 1.7.10
 
 """  # noqa: E501
+import io
 from tokenize import detect_encoding
 
 import bandit
@@ -54,9 +55,12 @@ BIDI_CHARACTERS = (
 @test.test_id("B613")
 @test.checks("File")
 def trojansource(context):
-    with open(context.filename, "rb") as src_file:
-        encoding, _ = detect_encoding(src_file.readline)
-    with open(context.filename, encoding=encoding) as src_file:
+    # use the bytes that were scanned (a file, or standard input): the name
+    # "<stdin>" cannot be opened again
+    context.file_data.seek(0)
+    data = context.file_data.read()
+    encoding, _ = detect_encoding(io.BytesIO(data).readline)
+    with io.TextIOWrapper(io.BytesIO(data), encoding=encoding) as src_file:
         for lineno, line in enumerate(src_file.readlines(), start=1):
             for char in BIDI_CHARACTERS:
                 try:
